@@ -26,6 +26,10 @@ def run(ctx) -> None:
     ctx.guard("C17.extension", extension)
     ctx.guard("C17.context", context)
     ctx.guard("C17.str", strings)
+    # the device classes take the file path exactly like the base class (auto-save works for every worklist type)
+    from . import c16
+
+    ctx.reuse("C17.open-config", c16.override_set)
 
 
 def _save(ctx, rule):
